@@ -2,9 +2,9 @@ package interp
 
 import (
 	"fmt"
-	"os"
 	"go/token"
 	"go/types"
+	"os"
 	"runtime"
 	"strings"
 	"sync"
@@ -388,6 +388,22 @@ func (w *Worker) callSSA(caller *frame, callpos token.Pos, fn *ssa.Function, arg
 	if rep, ok := w.ex.Replace[name]; ok && (caller == nil || !w.inReplacement(caller, rep)) {
 		w.ex.noteStub(name + " => " + rep.String())
 		return w.callSSA(caller, callpos, rep, args, nil)
+	}
+	if (strings.HasPrefix(name, "(*os.File).") || strings.HasPrefix(name, "(*regexp.Regexp).")) && len(args) > 0 {
+		// a harness stand-in (new(os.File), new(regexp.Regexp): all fields zero) reaching a
+		// method the harness does not model: the model is incomplete, not the code at fault
+		if rp, ok := args[0].(*Value); ok && rp != nil {
+			if st, ok := (*rp).(Struct); ok && len(st) > 0 {
+				if fp, ok := st[0].(*Value); ok && fp == nil && (len(st) == 1 || strings.HasPrefix(name, "(*os.File).")) {
+					panic(engineError("stand-in object of a harness reached the unmodelled method " + name))
+				}
+				if strings.HasPrefix(name, "(*regexp.Regexp).") && !strings.HasSuffix(name, ".String") && len(st) > 1 {
+					if pp, ok := st[1].(*Value); ok && pp == nil {
+						panic(engineError("stand-in object of a harness reached the unmodelled method " + name))
+					}
+				}
+			}
+		}
 	}
 	if intr, ok := intrinsics[name]; ok {
 		w.ex.noteIntrinsic(name)
